@@ -33,6 +33,7 @@ type Obligation struct {
 	Case     string
 	Timeout  int
 	Probe    bool // vacuity probe: expected NOT to be unsat
+	MaxSecs  int
 }
 
 // State maps state keys to their current SMT term. Absent = initial version.
@@ -74,6 +75,8 @@ type FuncVC struct {
 	errs         []string
 	topFrame     *Frame
 	forceWrap    bool
+	ifaceRecv    types.Type
+	ifaceImpl    types.Type
 	lemmaReveal  []string
 	lemmaEnv     *TEnv
 	outDir       string
